@@ -398,7 +398,7 @@ def addOrUpdatePeer (cfg : Cfg4) (c : Ctx) (f : Far) : Ctx × Bool :=
 def updatePeers (cfg : Cfg4) : Ctx → List Far → Ctx × Bool
   | c, [] => (c, true)
   | c, f :: rest =>
-    if forwards f ∧ f.dstIntf = 0 ∧ f.tunnelTEID ≠ 0 then
+    if f.dstIntf = 0 ∧ f.tunnelTEID ≠ 0 then     -- (whatever the FAR's action: `prepare` needs the peer of every FAR that names a tunnel)
       match addOrUpdatePeer cfg c f with
       | (c, false) => (c, false)
       | (c, true) => updatePeers cfg c rest
